@@ -6,7 +6,7 @@
    when_all / when_all_vector join for every number of consumers / children and every
    interleaving of their atomic steps. *)
 From Coq Require Import List NArith ZArith Bool.
-From Pika Require Import Base.Conc Model.Sender Proofs.SenderProofs.
+From Pika Require Import Base.Conc Model.Sender Model.Handoff Proofs.SenderProofs Proofs.HandoffProofs.
 Import ListNotations.
 
 (* ---------------------------------------------------------------- Part 1: pipelines *)
@@ -92,4 +92,64 @@ Example C03_example_pipeline :
   sigs (LetError (fun _ => None) (fun e => Just [e]) (WhenAll [Just []; JustErr 9%N; JustStopped])) = [Sig (CVal [9%N])] /\
   den (WhenAll [JustErr 1%N; JustStopped; Just [4%N]]) = [CErr 1%N; CStopped] /\
   sends_done (Erased JustStopped) = false /\ sends_done JustStopped = true.
+Proof. vm_compute. repeat split. Qed.
+
+(* ---------------------------------------------------------------- Part 2: concurrent hand-off and join *)
+(* split / ensure_started / split_tuple (kind k), predecessor completing with c on thread 0,
+   every other thread a consumer, every schedule: in every reachable state no consumer has
+   been signalled twice; every consumer that was signalled got the stored result c, by its own
+   thread or by the predecessor's, and only after c was stored and predecessor_done set; once
+   the predecessor thread and a consumer have both run to completion the consumer has been
+   signalled (hence exactly once). *)
+Theorem C03_handoff_exactly_once : forall k c sched,
+  let g := fst (h_run k c sched) in
+  let ls := snd (h_run k c sched) in
+  NoDup (consumers g) /\
+  (forall cn b e, In (cn, b, e) (h_log g) ->
+      e = Sig c /\ h_v g = Some c /\ h_done g = true /\ (b = cn \/ b = 0)) /\
+  (ls 0 = PEnd -> forall t, t <> 0 -> ls t = CEnd -> In t (consumers g)).
+Proof. exact handoff_exactly_once. Qed.
+Print Assumptions C03_handoff_exactly_once.
+
+(* the spinlock is only ever held by a consumer whose next step releases it (no step blocks for ever) *)
+Theorem C03_handoff_lock_released : forall k c sched t,
+  let g := fst (h_run k c sched) in
+  let ls := snd (h_run k c sched) in
+  h_lock g = Some t -> h_lock (fst (h_tstep k c tt t g (ls t))) = None.
+Proof. exact handoff_lock_released. Qed.
+Print Assumptions C03_handoff_lock_released.
+
+(* when_all / when_all_vector with n children completing with [cs i] on n threads, every
+   schedule: never more than one signal; none before the last decrement; when all children have
+   finished exactly one, delivered by the thread of the last decrement: a value iff no child
+   failed (values in child order), otherwise the error of the child that set the flag first if
+   it failed with an error, else stopped. *)
+Theorem C03_when_all_join_once : forall n cs sched, n > 0 ->
+  let g := fst (w_run n cs sched) in
+  let ls := snd (w_run n cs sched) in
+  length (w_out g) <= 1 /\
+  (length (w_fin g) < n -> w_out g = []) /\
+  ((forall t, t < n -> ls t = WEnd) ->
+     exists t r, w_fin g = t :: r /\ w_out g = [(t, Sig (w_expected n cs (w_first g)))] /\
+                 (w_first g = None <-> forall u, u < n -> is_val (cs u) = true) /\
+                 (forall f, w_first g = Some f -> f < n /\ is_val (cs f) = false)).
+Proof. exact when_all_join_once. Qed.
+Print Assumptions C03_when_all_join_once.
+
+(* non-vacuity: consumer 1 has passed the first flag test when the predecessor completes and
+   re-checks under the lock; consumer 2 stores a continuation before; consumer 3 comes late *)
+Example C03_example_handoff :
+  let u := fun t => (t, tt) in
+  let st := h_run HSplit (CVal [7%N]) (map u [1; 2; 2; 2; 2; 1; 0; 0; 1; 0; 0; 3; 3]) in
+  rev (h_log (fst st)) = [(1, 1, Sig (CVal [7%N])); (2, 0, Sig (CVal [7%N])); (3, 3, Sig (CVal [7%N]))] /\
+  snd st 0 = PEnd /\ snd st 1 = CEnd /\ snd st 2 = CEnd /\ snd st 3 = CEnd /\ h_conts (fst st) = [].
+Proof. vm_compute. repeat split. Qed.
+
+(* the stopped child sets the flag before the error child's exchange: stopped is reported *)
+Example C03_example_join :
+  let u := fun t => (t, tt) in
+  let cs := fun t => match t with 0 => CVal [1%N] | 1 => CErr 5%N | _ => CStopped end in
+  w_out (fst (w_run 3 cs (map u [0; 1; 2; 2; 1; 0; 0; 1; 2]))) = [(2, Sig CStopped)] /\
+  w_out (fst (w_run 3 cs (map u [0; 1; 2; 1; 2; 0; 0; 2; 1]))) = [(1, Sig (CErr 5%N))] /\
+  w_out (fst (w_run 3 cs (map u [0; 1; 2; 1; 2; 0; 0; 2]))) = [].
 Proof. vm_compute. repeat split. Qed.
